@@ -25,8 +25,11 @@ def run(prop, tier, seed):
             rep.violation(m["clause"], {**m, "channel": "R"})
     for rec in r.printed[:: max(1, len(r.printed) // 3)][:3]:
         rep.sample({"channel": "R", "vector": rec})
+    # union / Literal fields inside configured classes (strategies on members, call dialects, codec entry points)
+    from harness.checks import conf_props
+    conf_props.run_into(rep, "C11", tier, seed)
     rep.assumptions += ["reading of the statement fixed in DESIGN.md 6 C11 / App. A.3 (members in declaration order; scalar members match by exact type at their position; "
                         "scalar coercions last; a null member never accepts a non-null input), the reading under which the pinned tests/test_union.py cases are satisfiable"]
-    return rep.finish({"exhaustive": True,
+    return rep.finish({"exhaustive": False,
                        "rule": "every ordered union of 2..MaxMembers distinct members of {int,float,bool,str,None,date,List[int],Dict[str,int],dataclass} and 6 Literal types, bare and as "
                                "a dataclass field, x 30 foreign inputs and the members' own sample values"})
